@@ -61,3 +61,13 @@ func SetTermWidth(cols int) bool {
 	ws, err := unix.IoctlGetWinsize(0, unix.TIOCGWINSZ)
 	return err == nil && int(ws.Col) == cols
 }
+
+// TermWidth reports what fd 0 answers to the window-size request right now
+// (0 and the error when the request fails).
+func TermWidth() (int, error) {
+	ws, err := unix.IoctlGetWinsize(0, unix.TIOCGWINSZ)
+	if err != nil {
+		return 0, err
+	}
+	return int(ws.Col), nil
+}
